@@ -223,15 +223,12 @@ def rule_coverage(program, ctx):
         "per filter; notify puts exactly (self.sub_id, event) iff check_event(event, self.filters) is truthy",
         floor=4,
     )
-    fn = program.func("nostr_relay.storage.base:BaseSubscription.check_event")
-    loop = next((l for l in walk_no_nested(fn) if isinstance(l, ast.For)), None)
-    if loop is None or dotted(loop.iter) != fn.args.args[2].arg:
-        ctx.bad(finding_func(P, rid, fn, "check_event no longer iterates the filters it is given", text="def check_event(...)"))
-        return
-    qv = loop.target.id
-    ev = fn.args.args[1].arg
+    from ..lib import live_matcher
+
+    fn, qv, ev, loop = live_matcher(program)
+    scope = loop if loop is not None else fn
     for f in FIELDS:
-        tests = [n for n in ast.walk(loop) if isinstance(n, ast.If) and any(isinstance(a, ast.Attribute) and a.attr == f and dotted(a.value) == qv for a in ast.walk(n.test))]
+        tests = [n for n in ast.walk(scope) if isinstance(n, ast.If) and any(isinstance(a, ast.Attribute) and a.attr == f and dotted(a.value) == qv for a in ast.walk(n.test))]
         if not tests:
             ctx.bad(finding_func(P, rid, fn, f"the live matcher ignores the filter's `{f}`: events that the stored query would not return are pushed live", text=f"def check_event(...) :: {f}"))
             continue
@@ -250,15 +247,26 @@ def rule_coverage(program, ctx):
                                    "both stored matchers and ignored by the live matcher", text=f))
         else:
             ctx.ok(rid, t, f"{f}: presence test + verdict")
-    # per-filter verdict
-    verdict = [n for n in ast.walk(loop) if isinstance(n, ast.If) and "all(matched)" in ast.unparse(n.test)]
-    if verdict and ast.unparse(verdict[0].test).replace(" ", "") in ("matchedandall(matched)", "all(matched)andmatched") and any(isinstance(r, ast.Return) and isinstance(r.value, ast.Constant) and r.value.value is True for r in verdict[0].body):
-        ctx.ok(rid, verdict[0], "filter matches iff every present condition holds (and at least one is present)")
+    # per-filter verdict:  S and all(S)   (as an `if …: return True` or as the returned expression)
+    sets = {s_.targets[0].id for s_ in ast.walk(scope) if isinstance(s_, ast.Assign) and isinstance(s_.targets[0], ast.Name) and isinstance(s_.value, ast.Call) and call_name(s_.value) == "set" and not s_.value.args}
+    verdict_ok = False
+    for n in ast.walk(scope):
+        e = None
+        if isinstance(n, ast.If) and any(isinstance(r, ast.Return) and isinstance(r.value, ast.Constant) and r.value.value is True for r in n.body):
+            e = n.test
+        elif isinstance(n, ast.Return) and n.value is not None and not isinstance(n.value, ast.Constant) and loop is None:
+            e = n.value
+        if isinstance(e, ast.BoolOp) and isinstance(e.op, ast.And) and len(e.values) == 2:
+            txts = {ast.unparse(v) for v in e.values}
+            for sv in sets:
+                if f"all({sv})" in txts and (txts - {f"all({sv})"}) <= {sv, f"bool({sv})", f"len({sv}) > 0", f"len({sv})"}:
+                    verdict_ok = True
+    if verdict_ok:
+        ctx.ok(rid, scope, "filter matches iff every present condition holds (and at least one is present)")
     else:
         ctx.bad(finding_func(P, rid, fn, "the per-filter verdict is no longer `matched and all(matched)`", text="def check_event(...) :: verdict"))
-    fresh = [s for s in loop.body if isinstance(s, ast.Assign) and isinstance(s.value, ast.Call) and call_name(s.value) == "set" and not s.value.args]
-    if not fresh:
-        ctx.bad(finding_at(P, rid, loop, "the verdict set is not reset per filter: conditions of one filter leak into the next"))
+    if not sets:
+        ctx.bad(finding_at(P, rid, scope, "the verdict set is not reset per filter: conditions of one filter leak into the next"))
     nf = program.func("nostr_relay.storage.base:BaseSubscription.notify")
     cfg = cfg_of(nf)
     m_names = {s.targets[0].id for s in walk_no_nested(nf) if isinstance(s, ast.Assign) and isinstance(s.value, ast.Call) and call_name(s.value) == "self.check_event" and isinstance(s.targets[0], ast.Name)}
